@@ -146,7 +146,7 @@ def select_lookup(recs, tier):
     return out
 
 
-def replay_lookup(ctx, recs, tier):
+def make_layouts(ctx, recs):
     base = os.path.join(ctx.tmp, "lookup")
     os.makedirs(base, exist_ok=True)
     roots = {}
@@ -154,6 +154,10 @@ def replay_lookup(ctx, recs, tier):
         k = layout_key(r)
         if k not in roots:
             roots[k] = make_layout(base, k)
+    return roots
+
+
+def replay_lookup(ctx, recs, tier, roots):
 
     def one(irec):
         cid, rec = irec
@@ -199,15 +203,14 @@ def replay_lookup(ctx, recs, tier):
     return len(results), len(nontrivial), events
 
 
-def replay_lookup_parse_file(ctx, recs):
+def replay_lookup_parse_file(ctx, recs, roots):
     """The same layouts through parse_file (its own -I/-S handling: directories are not made absolute):
     quote/angle forms without -noangles (parse_file has no such option), winner from the parse dump."""
-    base = os.path.join(ctx.tmp, "lookup")
     sel = [r for r in recs if not r["noangles"] and r["explicit"] == "none"
            and h32("pf", r["present"], r["cmd"], r["form"], r["incIsCwd"]) % 6 == 0]
 
     def one(rec):
-        root = make_layout(base, layout_key(rec))
+        root = roots[layout_key(rec)]
         argv = []
         for d in rec["cmd"]:
             argv += ["-S" if d.startswith("S") else "-I", "../" + d]
@@ -248,7 +251,9 @@ def once_layout(base):
 
 
 def spelling(sp, root):
-    return {"plain": "sub/x.h", "dot": "./sub/x.h", "dotdot": "sub/../sub/./x.h", "dslash": "sub//x.h",
+    # repeated slashes inside the #include text are undefined behaviour in C/C++ ("//" in a header-name), so
+    # they are exercised where they are legal: in the -I directory ("viaI") and in the command-line spelling
+    return {"plain": "sub/x.h", "dot": "./sub/x.h", "dotdot": "sub/../sub/./x.h",
             "symlink": "lnk/x.h", "abs": os.path.join(root, "cwd", "sub", "x.h"), "viaI": "x.h"}[sp]
 
 
@@ -269,7 +274,7 @@ def replay_once(ctx, recs):
                     f.write('#include "%s"\n' % spelling(s, root))
                 f.write("int done_%s;\n" % part)
             files.append("../out/t%d%s.h" % (cid, part))
-        argv = ["-I", "lnk/../sub/"]
+        argv = ["-I", "lnk/..//sub/"]
         argv.append(files[0])
         if "cmdline" in sp:
             argv.append(["sub/x.h", "./lnk/x.h", "sub/../lnk//x.h"][cid % 3])
@@ -490,7 +495,7 @@ def run_check(ctx):
             lookups.append(r)
         else:
             onces.append(r)
-    if len(lookups) < 90000 or len(onces) < 500:
+    if len(lookups) < 90000 or len(onces) < 300:
         raise MachineryError("IncludeSearch dump too small: %d lookup cases, %d once-only histories" % (len(lookups), len(onces)))
     pdump = os.path.join(ctx.tmp, "paths.ndjson")
     pres = tlc.run("PathNormMC", pn_cfg, env={"VERIF_DUMP": pdump}, timeout=1500)
@@ -520,8 +525,9 @@ def run_check(ctx):
 
     # ---- replay -------------------------------------------------------------------------------
     sel = select_lookup(lookups, tier)
-    n_l, nt_l, ev_l = replay_lookup(ctx, sel, tier)
-    n_pf = replay_lookup_parse_file(ctx, sel)
+    roots = make_layouts(ctx, sel)
+    n_l, nt_l, ev_l = replay_lookup(ctx, sel, tier, roots)
+    n_pf = replay_lookup_parse_file(ctx, sel, roots)
     n_o, ev_o = replay_once(ctx, onces)
     n_p, nt_p = replay_paths(ctx, paths)
     ctx.cov["evaluations"] += n_l + n_pf + n_o + n_p
